@@ -75,6 +75,27 @@ cxx_header: g.hpp
 declarations:
 - decl: void send(MPI_Comm comm, int n)
 """,
+    "geom_base": """library: geom
+cxx_header: geom.h
+language: c
+declarations:
+- decl: struct Point { int x; int y; };
+  options:
+    wrap_struct_as: class
+- decl: struct Point3 { int x; int y; int z; };
+  options:
+    wrap_struct_as: class
+    class_baseclass: Point
+""",
+    "units_struct": """library: units
+cxx_header: units.h
+language: c
+declarations:
+- decl: struct Length { double value; int unit; };
+  options:
+    wrap_struct_as: class
+- decl: double in_meters(Length *l)
+""",
     "python": """library: libe
 cxx_header: e.hpp
 options:
@@ -224,9 +245,41 @@ print(json.dumps(dict((n, hashlib.sha256(open(os.path.join(out, n), 'rb').read()
         shutil.rmtree(base, ignore_errors=True)
 
 
+def check_stale(inp):
+    """regenerating into a directory that still holds the (longer) files of an earlier version of the library gives the
+    same bytes as generating into an empty directory"""
+    big = LIBS["cxxclass"]
+    small = "library: liba\ncxx_header: a.hpp\ndeclarations:\n- decl: int one()\n"
+    base = tempfile.mkdtemp(prefix="mpur_")
+    try:
+        from shroud import main as M
+        used, fresh = os.path.join(base, "used"), os.path.join(base, "fresh")
+        os.makedirs(used)
+        os.makedirs(fresh)
+        for d_, texts in ((used, (big, small)), (fresh, (small,))):
+            for t in texts:
+                f = os.path.join(d_, "liba.yaml")
+                open(f, "w").write(t)
+                with contextlib.redirect_stdout(io.StringIO()):
+                    M.main_with_args(args_for(f, d_))
+        for n in sorted(os.listdir(fresh)):
+            if n.endswith((".yaml", ".log", ".json", ".lst")):
+                continue
+            a = open(os.path.join(fresh, n), "rb").read().replace(fresh.encode(), b"<DIR>")
+            b = open(os.path.join(used, n), "rb").read().replace(used.encode(), b"<DIR>")
+            if a != b:
+                return "%s written over an older, longer version of itself differs from the same file written into an empty directory " \
+                       "(%d vs %d bytes)" % (n, len(b), len(a))
+        return None
+    finally:
+        shutil.rmtree(base, ignore_errors=True)
+
+
 def check(inp):
     if inp.get("kind") == "env":
         return check_env(inp)
+    if inp.get("kind") == "stale":
+        return check_stale(inp)
     seq = inp["seq"]
     for n in set(seq):
         if n not in _REF:
@@ -242,6 +295,9 @@ def check(inp):
 
 def candidates(seed, around=None):
     yield {"kind": "env"}
+    yield {"kind": "stale"}
+    yield {"seq": ["geom_base", "units_struct"]}
+    yield {"seq": ["mpi_custom", "mpi_plain"]}
     names = sorted(LIBS)
     for a, b in itertools.permutations(names, 2):
         yield {"seq": [a, b]}
